@@ -23,12 +23,17 @@ def fam_core(seed, i):
          "sender": 0.5, "caller": 0.5, "weak_sender": 0.3, "weak_caller": 0.3, "force_send": 1.5}
     scripts = SCRIPTS_CORE
     if rng.random() < 0.12:
-        # the actor is polled only when no client can run: the deepest backlog the programs can build (20-30 messages)
+        # the actor is polled only when no client can run: the deepest backlog the programs can build (25-40 messages,
+        # mostly on an unbounded mailbox: whatever the library buffers internally must not lose or reorder any)
         sc["starve"] = ["a1"]
-        w = {"send": 10, "call": 1, "ping": 0.5}
+        cfg["cap"] = rng.choice([-1, -1, -1, 1, 2])
+        kinds = {f"c{k+1}": rng.choice(["addr", "addr", "sender", "wsender"]) for k in range(rng.randint(3, 4))}
+        main, handles = setup_main(rng, cfg, kinds, True)
+        sc["clients"]["main"] = main
+        w = {"send": 10, "call": 1, "ping": 0.5, "force_send": 1}
         cnt = [0]
         for c in kinds:
-            sc["clients"][c] = Prog(rng, c, handles.get(c, {}), w, [[], [], [Y]], cnt).run(rng.randint(6, 10))
+            sc["clients"][c] = Prog(rng, c, handles.get(c, {}), w, [[], [], [Y]], cnt).run(rng.randint(8, 11))
         return sc
     if rng.random() < 0.3:
         # pings used as barriers while handlers are suspended mid-way and other clients' pings are queued
@@ -152,10 +157,17 @@ def fam_awaiters(seed, i):
     ncl = rng.randint(2, 4)
     names = [f"c{k+1}" for k in range(ncl)]
     kinds = {c: "addr" for c in names}
-    main, handles = setup_main(rng, cfg, kinds, rng.random() < 0.3, entry=rng.choice(["builder", "builder", "plain", "default", "with"]))
+    joiner = rng.random() < 0.35
+    if joiner:
+        # one client owns the actor: join futures in every shape (awaited, parked next to a second join, made and
+        # dropped, polled once and dropped) while the others stop / await it
+        cfg["owning"] = True
+        kinds["c1"] = "owning"
+    main, handles = setup_main(rng, cfg, kinds, rng.random() < 0.3, entry=rng.choice(["builder", "builder", "plain", "default"] + ([] if joiner else ["with"])))
     sc["clients"]["main"] = main
     w = {"await_ref": 6, "await": 2, "clone": 4, "stopped": 2, "running": 2, "yield": 3, "drop": 1, "halt": 0.7, "downgrade": 0.5,
          "upgrade": 0.7, "try_halt": 0.5, "call": 1.5, "send": 1}
+    wj = {"join": 7, "to_addr": 1.5, "consume": 0.6, "consume_sync": 0.5, "detach": 0.3, "call": 1.5, "yield": 3, "ping": 0.5}
     scripts = [[], [Y]]
     if end == "panic":
         scripts += [[eff("panic")], [Y, eff("panic")]]
@@ -165,8 +177,9 @@ def fam_awaiters(seed, i):
         w["stop"] = 2.5
     cnt = [0]
     for c in names:
-        p = Prog(rng, c, handles.get(c, {}), w, scripts, cnt)
+        p = Prog(rng, c, handles.get(c, {}), wj if (joiner and c == "c1") else w, scripts, cnt)
         p.cancel_p = 0.15
+        p.join_d = [0, 2, 2, 3, 1]
         sc["clients"][c] = p.run(rng.randint(3, 9))
     return sc
 
